@@ -30,9 +30,15 @@ def shift (off : Nat) : Nat → GVal → GVal
 
 def shiftCell (off : Nat) (c : Entries) : Entries := c.map (fun p => (p.1, shift off gdepth p.2))
 
+/-- the new cells laid over the store -/
+def overlay (cs : List (Loc × Entries)) (h : GHeap) : GHeap := fun x =>
+  match cs.find? (fun p => p.1 == x) with
+  | some p => some p.2
+  | none => h x
+
 /-- the memoised clone: the isomorphic image, at offset `σ.next`, of the cells reachable from `v` (followed to `F` levels) -/
 def cloneIso (F : Nat) (σ : GStore) (v : GVal) : GStore × GVal :=
-  ({ heap := (reach F σ.heap v).foldl (fun h l => gupd h (l + σ.next) (shiftCell σ.next (readG σ.heap l))) σ.heap,
+  ({ heap := overlay ((reach F σ.heap v).map (fun l => (l + σ.next, shiftCell σ.next (readG σ.heap l)))) σ.heap,
      next := σ.next + σ.next },
    shift σ.next gdepth v)
 
